@@ -36,6 +36,10 @@ type ContentionOpts struct {
 	// EarlyRecreate: open system with workload controllers - an evicted pod is replaced by a pending one as soon as it
 	// is terminating and stays terminating for 1-2 cycles
 	EarlyRecreate bool
+	// ElasticFocus (with MinRuntime): the organisation above its quota runs its elastic workload whenever it has three
+	// devices, the workload started a minute ago, and its queue and all ancestors carry a 1h reclaim and preempt
+	// min-runtime - several reclaimers / preemptors of ONE cycle then compete for the surplus of a protected workload
+	ElasticFocus bool
 }
 
 func ContentionWith(seed int64, index int, tier string, opts ContentionOpts) *spec.Case {
@@ -297,7 +301,7 @@ func ContentionWith(seed int64, index int, tier string, opts ContentionOpts) *sp
 	}
 	for o := 0; o < nOrg; o++ {
 		ls := leavesOf(o)
-		if opts.MinRuntime && o == over && run[o] >= 3 && r.IntN(2) == 0 {
+		if opts.MinRuntime && o == over && run[o] >= 3 && (r.IntN(2) == 0 || opts.ElasticFocus) {
 			// the organisation above its quota runs one elastic workload instead of single-pod jobs: minimum 1-2,
 			// the rest is surplus that several reclaimers of one cycle may take, but never more than that while the
 			// workload is inside its min-runtime
@@ -306,7 +310,22 @@ func ContentionWith(seed int64, index int, tier string, opts ContentionOpts) *sp
 				n = 4
 			}
 			min := 1 + r.IntN(2)
-			if placed := elastic(ls[r.IntN(len(ls))].name, min, n, r.IntN(2) == 0); placed > 0 {
+			eq, recent := ls[r.IntN(len(ls))].name, r.IntN(2) == 0
+			if opts.ElasticFocus {
+				recent = true
+				for qn := eq; qn != ""; {
+					next := ""
+					for _, qu := range c.Objects.Queues {
+						if qu.Name == qn {
+							qu.Spec.ReclaimMinRuntime = &metav1.Duration{Duration: time.Hour}
+							qu.Spec.PreemptMinRuntime = &metav1.Duration{Duration: time.Hour}
+							next = qu.Spec.ParentQueue
+						}
+					}
+					qn = next
+				}
+			}
+			if placed := elastic(eq, min, n, recent); placed > 0 {
 				run[o] -= placed
 			}
 		}
